@@ -18,6 +18,7 @@ EXPLANATION = (
     "detect_bad_channels the label stores are ordered 3, then 1, then 2 (2 overrides 1 overrides 3) and "
     "detect_bad_channels_cbin takes the mode across batches (axis 1). Detection quality on recordings is NOT decided."
     ' (as built) row and donor selectors are evaluated on the finite label domain: the repaired rows are exactly labels {1, 2}; the donors with zero weight are exactly labels {1, 2} (good and outside-brain channels stay donors); both the per-channel loop and a vectorised weight matrix (donors along axis 1) are understood.'
+    ' (DS as built) module-level dict caches are followed like lru_cache: a row view of a cached decay matrix must be copied before it is zeroed / thresholded.'
 )
 ASSUMPTIONS = [
     "np.exp(...) > 0; a vector divided by its positive sum sums to one (model table)",
